@@ -106,6 +106,15 @@ def compare_document(path: str, model, rng, label: str) -> tuple[list[dict], dic
         return viols, counters
     var_names = model.get_variable_names()
     dyn = [sid for sid in D.species if mapped[sid] in var_names]
+    # quantities under a rate rule that are not species (coefficients, parameters): states of the imported model as well
+    ruled = [q for q in D.rate_rules if q not in D.species and mapped.get(q, py_name(q)) in var_names]
+    for q in ruled:
+        name = mapped.get(q, py_name(q))
+        exp = D.value(q, None, 0.0, initial=True)
+        if not core.close(float(ic[name]), exp, 1e-9):
+            viols.append(core.viol(f"initial value of a quantity under a rate rule differs from the document [{label}]", None, quantity=q, got=float(ic[name]), expected=exp))
+            return viols, counters
+        counters["quantities_under_a_rate_rule_compared"] = counters.get("quantities_under_a_rate_rule_compared", 0) + 1
     for _ in range(4):
         xs = {sid: round(rng.uniform(0.4, 3.0), 3) for sid in dyn}
         t = rng.choice([0.0, 0.0, 1.5])
@@ -119,13 +128,17 @@ def compare_document(path: str, model, rng, label: str) -> tuple[list[dict], dic
                 st[sid] = amount if sp.getHasOnlySubstanceUnits() else amount / V
             else:
                 st[sid] = exp0[sid]
+        qs = {q: round(rng.uniform(0.4, 3.0), 3) for q in ruled}
+        st.update(qs)
         try:
             exp_amount = D.rates(st, t, amounts=True)
             exp_rules = D.rule_values(st, t)
+            exp_ruled = D.rate_rule_rates(st, t)
         except (sbml_interp.InterpError, ZeroDivisionError, ValueError, OverflowError):
             counters["interpreter_could_not_evaluate(skipped)"] = counters.get("interpreter_could_not_evaluate(skipped)", 0) + 1
             continue
         mstate = {mapped[sid]: xs[sid] for sid in dyn}
+        mstate.update({mapped.get(q, py_name(q)): v for q, v in qs.items()})
         for v in var_names:
             mstate.setdefault(v, float(ic[v]))
         try:
@@ -141,7 +154,12 @@ def compare_document(path: str, model, rng, label: str) -> tuple[list[dict], dic
             got = float(rhs[mapped[sid]])
             if not core.close(got, exp, 1e-9, 1e-12):
                 viols.append(core.viol(f"derivative of a species differs from stoichiometry x kinetic laws of the document [{label}]", None, species=sid, representation=rep[sid],
-                                       got=got, expected=exp, compartment_size=V, state=xs, time=t))
+                                       got=got, expected=exp, compartment_size=V, state={**xs, **qs}, time=t))
+                return viols, counters
+        for q in ruled:
+            got = float(rhs[mapped.get(q, py_name(q))])
+            if not core.close(got, exp_ruled[q], 1e-9, 1e-12):
+                viols.append(core.viol(f"derivative of a quantity under a rate rule differs from the document [{label}]", None, quantity=q, got=got, expected=exp_ruled[q], state={**xs, **qs}, time=t))
                 return viols, counters
         for rid, exp in exp_rules.items():
             name = mapped.get(rid, py_name(rid))
